@@ -99,36 +99,28 @@ func (Scans) Run(c choice.Chooser, opt sim.Options) sim.Result {
 	if n > 64 {
 		n = 64
 	}
-	if n == 1 && kind == kPrimLine {
-		n = 2
+	// empty meshes are element counts too (primitive scans only: an attribute
+	// scan on a mesh without the attribute is rejected by both variants)
+	empty := kind <= kPrimLine && c.Intn("n:empty", 12) == 11
+	if empty {
+		n = 0
 	}
 
 	// build the mesh: element count n means primitives for primitive scans,
 	// attribute length otherwise
 	var m modeling.Mesh
-	switch kind {
-	case kPrimTri:
-		verts := 3 + c.Intn("verts", 9)
-		idx := make([]int, 3*n)
-		welded := choice.Bool(c, "welded")
-		if !welded {
-			verts = 3 * n
+	switch {
+	case empty:
+		topo := []modeling.Topology{modeling.TriangleTopology, modeling.PointTopology, modeling.LineStripTopology}[kind]
+		if kind == kPrimLine && choice.Bool(c, "empty:one-vertex") {
+			// a strip of one vertex: zero primitives
+			m = modeling.NewMesh(topo, []int{0}).SetFloat3Attribute(modeling.PositionAttribute, gen.F3s(c, "pos", 1, false))
+		} else {
+			m = modeling.EmptyMesh(topo)
 		}
-		for i := range idx {
-			if welded {
-				idx[i] = c.Intn("idx", verts)
-			} else {
-				idx[i] = i
-			}
-		}
-		m = modeling.NewTriangleMesh(idx).SetFloat3Attribute(modeling.PositionAttribute, gen.F3s(c, "pos", verts, false))
-	case kPrimLine:
-		m = modeling.NewLineStripMesh(map[string][]vector3.Float64{modeling.PositionAttribute: gen.F3s(c, "pos", n+1, false)}, nil, nil, nil)
+		res.Count("probe:empty-mesh", 1)
 	default:
-		m = modeling.NewPointCloud(nil,
-			map[string][]vector3.Float64{modeling.PositionAttribute: gen.F3s(c, "pos", n, false)},
-			map[string][]vector2.Float64{"f2": gen.F2s(c, "f2", n)},
-			map[string][]float64{"f1": gen.F1s(c, "f1", n, false)}, nil)
+		m = buildScanMesh(c, kind, n)
 	}
 	before := meshsnap.Take(m)
 
@@ -351,4 +343,35 @@ func relBucket(n, pool int) string {
 		return "k*pool"
 	}
 	return "k*pool+r"
+}
+
+// buildScanMesh builds a mesh with n elements: primitives for primitive
+// scans, attribute length otherwise.
+func buildScanMesh(c choice.Chooser, kind, n int) modeling.Mesh {
+	var m modeling.Mesh
+	switch kind {
+	case kPrimTri:
+		verts := 3 + c.Intn("verts", 9)
+		idx := make([]int, 3*n)
+		welded := choice.Bool(c, "welded")
+		if !welded {
+			verts = 3 * n
+		}
+		for i := range idx {
+			if welded {
+				idx[i] = c.Intn("idx", verts)
+			} else {
+				idx[i] = i
+			}
+		}
+		m = modeling.NewTriangleMesh(idx).SetFloat3Attribute(modeling.PositionAttribute, gen.F3s(c, "pos", verts, false))
+	case kPrimLine:
+		m = modeling.NewLineStripMesh(map[string][]vector3.Float64{modeling.PositionAttribute: gen.F3s(c, "pos", n+1, false)}, nil, nil, nil)
+	default:
+		m = modeling.NewPointCloud(nil,
+			map[string][]vector3.Float64{modeling.PositionAttribute: gen.F3s(c, "pos", n, false)},
+			map[string][]vector2.Float64{"f2": gen.F2s(c, "f2", n)},
+			map[string][]float64{"f1": gen.F1s(c, "f1", n, false)}, nil)
+	}
+	return m
 }
